@@ -596,6 +596,7 @@ func (e *Engine) wrapLoaded(fr *Frame, st *State, v *Term, t types.Type) Val {
 	case *types.Interface:
 		if !fr.bound && v.Op != "ctor" {
 			e.addFact(st, e.tb.IntCmp("<", e.tb.RootID(e.tb.Acc(v, 1)), st.clock))
+			e.addFact(st, e.tb.Implies(e.tb.Eq(e.tb.Acc(v, 0), e.tb.Int(0)), e.tb.Eq(e.tb.Acc(v, 1), e.tb.RefNil())))
 		}
 	case *types.Signature:
 		if v.Op == "const" {
@@ -617,6 +618,7 @@ func (e *Engine) wfSlice(st *State, s *Term) *Term {
 		tb.IntCmp("<", tb.RootID(e.sBase(s)), st.clock),
 		tb.Not(tb.mk("(_ is lit)", SBool, "", nil, e.sBase(s))),
 		tb.Implies(tb.Eq(e.sBase(s), tb.RefNil()), tb.Eq(e.sCap(s), z)),
+		tb.Or(tb.Eq(e.sBase(s), tb.RefNil()), tb.IntCmp(">=", tb.RootID(e.sBase(s)), tb.Int(0))),
 	)
 }
 
@@ -682,6 +684,16 @@ func (e *Engine) execBinOp(fr *Frame, st *State, ins *ssa.BinOp) Val {
 			eq = tb.Eq(e.term(fr, ins.X), e.term(fr, ins.Y))
 		case *types.Array, *types.Struct:
 			eq = e.valueEq(fr, st, e.term(fr, ins.X), e.term(fr, ins.Y), xt)
+		case *types.Interface:
+			x, y := e.term(fr, ins.X), e.term(fr, ins.Y)
+			switch {
+			case y == e.nilIface():
+				eq = tb.Eq(tb.Acc(x, 0), tb.Int(0))
+			case x == e.nilIface():
+				eq = tb.Eq(tb.Acc(y, 0), tb.Int(0))
+			default:
+				eq = tb.Eq(x, y)
+			}
 		default:
 			eq = tb.Eq(e.term(fr, ins.X), e.term(fr, ins.Y))
 		}
@@ -1544,6 +1556,8 @@ func (e *Engine) assumeWF(fr *Frame, st *State, v *Term, t types.Type) {
 		e.addFact(st, e.tb.IntCmp("<", e.tb.RootID(v), st.clock))
 	case *types.Interface:
 		e.addFact(st, e.tb.IntCmp("<", e.tb.RootID(e.tb.Acc(v, 1)), st.clock))
+		e.addFact(st, e.tb.Implies(e.tb.Eq(e.tb.Acc(v, 0), e.tb.Int(0)), e.tb.Eq(e.tb.Acc(v, 1), e.tb.RefNil())))
+		e.addFact(st, e.tb.Or(e.tb.Eq(e.tb.Acc(v, 1), e.tb.RefNil()), e.tb.mk("(_ is lit)", SBool, "", nil, e.tb.Acc(v, 1)), e.tb.IntCmp(">=", e.tb.RootID(e.tb.Acc(v, 1)), e.tb.Int(0)), e.isBoxRef(e.tb.Acc(v, 1))))
 	case *types.Struct:
 		u := t.Underlying().(*types.Struct)
 		for i := 0; i < u.NumFields(); i++ {
@@ -1972,3 +1986,7 @@ func (e *Engine) appendObl(o *Obligation) []*Obligation {
 	o.Seq = e.seq
 	return append(e.obls, o)
 }
+
+
+// isBoxRef: placeholder for "reference of a boxed value" (always allowed).
+func (e *Engine) isBoxRef(r *Term) *Term { return e.tb.True() }
